@@ -24,11 +24,17 @@ META = {
                  'SQLite-dialect database; rows vs SQLite-dialect rows vs reference interpreter; Oracle/CockroachDB SQL '
                  'recorded and placeholder-checked',
     'level_text': 'Reduced form of C02: runtime differential monitoring of the dialect-specific SQL generation on thousands '
-                  'of generated programs (bounded-exhaustive slice + random programs + LIKE and LIMIT/OFFSET batteries). '
+                  'of generated programs (bounded-exhaustive slice + random programs + LIKE, LIMIT/OFFSET, dialect-function and '
+                  'date/datetime/timedelta-arithmetic batteries). '
                   'No PostgreSQL/MariaDB/Oracle/CockroachDB server executes anything here, so translation validation '
                   'against real backends is out of reach; the claim is exploration of the generated SQL under a small '
                   'trusted model of the dialects.',
-    'level_note': 'Trusted base: the E1 reference interpreter, sqlite3, the rewriter whitelist and the UDF models of '
+    'level_note': 'Temporal part (vlib/xtemporal.py): SQLite executes natively and is judged against python evaluation of the '
+                  'expression tree; the PostgreSQL/MySQL statements are EVALUATED by a typed evaluator of single-table SELECTs '
+                  '(execute-mode model of DATE/TIMESTAMP/INTERVAL literals, date+-interval, differences, EXTRACT/year().., ::date/'
+                  'DATE(), ADDDATE/SUBDATE/TIMEDIFF); MySQL timedelta parameters, ADDDATE with a TIME column, TIMEDIFF of dates '
+                  'and INTERVAL outside date arithmetic are NOT modelled (unsupported; placeholders still checked). '
+                  'Trusted base: the E1 reference interpreter, sqlite3, the rewriter whitelist and the UDF models of '
                   'vlib/xdialect.py (substr/length/greatest/least per dialect as in C25, LIKE case-sensitive with backslash '
                   'default escape, concat NULL rules, MySQL TRIM remstr semantics, string_agg/group_concat). The shim is '
                   'more permissive than a real server (no type checking), so it can miss dialect defects but does not '
@@ -45,15 +51,23 @@ META = {
         '18446744073709551615 / LIMIT null; true/false; string_agg / GROUP_CONCAT SEPARATOR; row-value IN lists -> VALUES; '
         'MySQL || = OR; DISCARD ALL / SET .. as no-ops; canned version probes) and the UDF models (substr, length, '
         'greatest/least, like, concat, mysql_trim, string_agg/group_concat). Everything else native SQLite.',
-        'NEUTRAL DOMAIN: ints without division/modulo/power, bools, ASCII strings without backslash or whitespace-only '
-        'values, NULLs; no dates, Decimals, floats, JSON, arrays in expressions. String slices only with constant/parameter '
-        'non-negative bounds and stop >= start (negative or computed bounds and stop < start belong to C25).',
+        'NEUTRAL DOMAIN (E1 programs): ints without division/modulo/power, bools, ASCII strings without backslash or '
+        'whitespace-only values, NULLs; no Decimals, floats, JSON, arrays in expressions (dates/datetimes: temporal part). String slices with constant/parameter bounds of '
+        'either sign; only computed bounds and a stop before the start on the same side (s[3:1], s[-2:-4]) are left to C25.',
         'Strings compare bytewise: PostgreSQL collation "C" and a MySQL *_bin collation are ASSUMED (the default '
         'case-insensitive MySQL collation and locale-aware PostgreSQL collations are data-domain matters not modelled).',
         'NULL placement of ORDER BY (PostgreSQL/Oracle: last, SQLite/MySQL: first) is not modelled; ordered and limited '
         'programs order by non-nullable keys plus the primary key only.',
+        'TEMPORAL DOMAIN: one entity with date, datetime, timedelta attributes; whole-second values (no microseconds); '
+        'date +- WHOLE-DAY timedeltas only (python floors date + timedelta(hours=5), PostgreSQL/MySQL give a timestamp); '
+        'datetime +- timedelta (constant, parameter, column); differences; .year .. .second; datetime.date(); no '
+        'date-with-datetime comparisons; nullable attributes only as direct conjuncts or under `is None` guards. The '
+        'PostgreSQL/MySQL temporal results come from the typed evaluator of vlib/xtemporal.py (manual-derived typing rules), '
+        'not from a server: findings C02-DATE-ARITHMETIC-RETURNS-DATETIME and C02-MYSQL-TIMEDIFF-CLIPPED-TO-TIME-RANGE are '
+        'model-derived.',
         'OUT OF REACH: server-side type checking (PostgreSQL would reject some statements the shim runs), JSON/array '
-        'operators, date arithmetic, Oracle and CockroachDB result comparison, integer division semantics per dialect.',
+        'operators, Oracle and CockroachDB result comparison, integer division semantics per dialect, MySQL implicit '
+        'string->TIME/INTERVAL conversions (timedelta parameters).',
         'Oracle/CockroachDB: generated SQL is checked for placeholder/argument consistency and for dialect-only internal '
         'errors (AssertionError, AttributeError, KeyError, IndexError, AstError ...); documented loud refusals '
         '(TranslationError, NotImplementedError, TypeError) are counted as dialect_only_error, not flagged.',
@@ -66,8 +80,10 @@ SHARD_TIMEOUT = {'quick': 300, 'thorough': 2400}
 
 SIZES = {
     # random = programs per shard (each runs on datasets_per_batch data sets); enum_stride: every n-th enumerated program
-    'quick': dict(random=1800, batches=5, datasets_per_batch=5, depth=4, enum_per_type=1, enum_reduced=True, enum_stride=4, limit=480),
-    'thorough': dict(random=2200, batches=8, datasets_per_batch=4, depth=5, enum_per_type=1, enum_reduced=False, enum_stride=1, limit=480),
+    'quick': dict(random=1400, batches=5, datasets_per_batch=6, depth=4, enum_per_type=1, enum_reduced=True, enum_stride=4, limit=480,
+                  temporal=480, temporal_datasets=2),
+    'thorough': dict(random=2200, batches=8, datasets_per_batch=4, depth=5, enum_per_type=1, enum_reduced=False, enum_stride=1, limit=480,
+                     temporal=1200, temporal_datasets=3),
 }
 EXEC = ('postgres', 'mysql')
 RECORD = ('oracle', 'cockroach')
@@ -76,6 +92,9 @@ LABEL = {'sqlite': 'sqlite', 'postgres': 'pg-shim', 'mysql': 'mysql-shim', 'orac
 DEVIATIONS = [
     ('mysql', 'trim_charset', ('trim(both ', 'trim(leading ', 'trim(trailing '), 'C02-MYSQL-TRIM-REMSTR-NOT-CHARSET'),
     ('postgres', 'extremes_null', ('greatest(', 'least('), 'C02-PG-GREATEST-LEAST-SKIP-NULL'),
+    # the generic (non-PostgreSQL) branch of STRING_SLICE hands a negative start to substr() unchanged: MySQL then
+    # answers '' when the string is shorter than |start| and takes a wrong length when the stop is non-negative
+    ('mysql', 'substr_negpos_intent', ('substr(',), 'C02-MYSQL-NEGATIVE-SLICE-START'),
 ]
 # exception classes pony raises on purpose (loud refusal, documented); anything else raised by ONE dialect only is an
 # internal error of that dialect's code path
@@ -108,8 +127,9 @@ def outside_domain(program):
             if isinstance(n, ast.Subscript) and isinstance(n.slice, ast.Slice):
                 lo, hi = bound(n.slice.lower), bound(n.slice.upper)
                 if lo == 'dyn' or hi == 'dyn': return 'slice_computed_bound'
-                if (lo is not None and lo < 0) or (hi is not None and hi < 0): return 'slice_negative_bound'
-                if lo is not None and hi is not None and hi < lo: return 'slice_stop_before_start'
+                # negative constant / parameter bounds are inside the domain; only a stop that lies before the start
+                # on the same side (s[3:1], s[-2:-4]: PostgreSQL raises 'negative substring length', owned by C25) is not
+                if lo is not None and hi is not None and (lo < 0) == (hi < 0) and hi < lo: return 'slice_stop_before_start'
     return None
 
 
@@ -419,13 +439,16 @@ def function_programs(qdiff, seed):
     exprs += [(e, {}) for e in (
         'p.name.upper()', 'p.name.lower()', 'p.name + p.nick', "p.name + '-' + str(p.age)", "concat(p.name, p.age, '!')",
         'concat(p.nick, p.name)', 'f"{p.name}:{p.age}"', 'f"{p.nick}{p.name}"', 'p.name[0]', 'p.name[1]', 'p.name[-1]', 'p.name[-2]',
-        'p.name[:2]', 'p.name[1:]', 'p.name[1:3]', 'p.name[0:1]', 'p.name[2:2]', 'p.nick[:1]', 'len(p.name)', 'len(p.name + p.nick)',
+        'p.name[:2]', 'p.name[1:]', 'p.name[1:3]', 'p.name[0:1]', 'p.name[2:2]', 'p.nick[:1]', 'p.name[-3:]', 'p.name[-2:]',
+        'p.name[-1:]', 'p.name[-5:-2]', 'p.name[-3:-1]', 'p.name[:-2]', 'p.name[1:-1]', 'p.name[2:-2]', 'p.name[-4:3]', 'p.name[-2:4]',
+        'p.name[-6:]', 'p.nick[-2:]', "(p.name + '-' + p.name)[-4:]", 'p.name.upper()[-3:-1]', 'len(p.name)', 'len(p.name + p.nick)',
         'str(p.age)', 'str(p.score)', 'min(p.age, 3)', 'max(p.age, p.id)', "min(p.name, 'b')", 'max(p.name, p.nick)',
         'max(p.score, 1)', "coalesce(p.nick, 'zz')", 'coalesce(p.score, -1)', 'coalesce(p.score, p.age, 0)', 'p.active + 1',
         'p.active + p.age', 'p.flag + 1', 'p.active + p.flag', 'abs(p.age)', '-p.age', 'p.age * 2 - p.id', 'abs(p.score - p.age)',
         '(p.name if p.active else p.nick)', '(p.age if p.flag else p.id)', "(1 if p.name.startswith('a') else 0)",
         'p.name.strip()', 'p.name.upper().lower()', "p.name.strip('a').upper()", "(p.name + 'a').rstrip('a')")]
-    exprs += [('p.name[a0:a1]', {'a0': 1, 'a1': 3}), ('p.name[:a0]', {'a0': 2}), ('p.name[a0]', {'a0': 1}), ('p.name[a0]', {'a0': -1}),
+    exprs += [('p.name[a0:a1]', {'a0': 1, 'a1': 3}), ('p.name[:a0]', {'a0': 2}), ('p.name[a0:]', {'a0': -3}), ('p.name[a0:a1]', {'a0': -4, 'a1': -1}),
+              ('p.name[a0:a1]', {'a0': -3, 'a1': 2}), ('p.name[a0:a1]', {'a0': 1, 'a1': -2}), ('p.name[:a0]', {'a0': -3}), ('p.name[a0]', {'a0': 1}), ('p.name[a0]', {'a0': -1}),
               ('p.age + a0 - a0 * a0', {'a0': 3}), ('concat(a0, p.name, a0)', {'a0': '%'}), ('p.name + a0 + p.name + a0', {'a0': '%s'}),
               ('min(p.age, a0)', {'a0': 2}), ('coalesce(p.nick, a0)', {'a0': 'q%(p1)s'})]
     conds = [(c, {}) for c in (
@@ -569,6 +592,23 @@ def run(ctx):
         H.evaluate(p); n_fun += 1
     ctx.count('function_battery.programs', n_fun)
 
+    # ---- part 6: date / datetime / timedelta arithmetic (vlib/xtemporal.py: own entity, python reference, typed evaluator ----
+    # ---- of the PostgreSQL / MySQL statements, model of the SQLite dialect's text-width / float-days mechanisms) ----
+    from vlib import xtemporal
+    T = xtemporal.TemporalHarness(ctx, LOUD_CLASSES)
+    trng = ctx.subrng('temporal', ctx.shard)
+    T.load(xtemporal.gen_rows(ctx.subrng('temporal-battery-data'), 9), 'TB')
+    for k, tp in enumerate(xtemporal.battery()):
+        if ctx.nshards > 1 and k % 4 != ctx.shard % 4: continue          # thorough: every battery program on 4 of 16 shards
+        T.evaluate(tp, ('gen', 'str')[(k + ctx.seed) % 2])
+    for ds in range(sz['temporal_datasets']):
+        rows = xtemporal.gen_rows(trng, trng.choice([7, 9, 11]))
+        T.load(rows, 'T%d.%d.%d' % (ctx.seed, ctx.shard, ds))
+        tg = xtemporal.TemporalGen(trng, rows)
+        for k in range(sz['temporal'] // sz['temporal_datasets']):
+            T.evaluate(tg.program(trng.choice([1, 2, 2, 3])), ('gen', 'str')[k % 2])
+    ctx.count('temporal.programs', sz['temporal'])
+
     # ---- evidence ---------------------------------------------------------------------------------------------------------
     ctx.extra['executed_on'] = ['sqlite', 'pg-shim', 'mysql-shim']
     ctx.extra['recorded_only'] = ['oracle', 'cockroach']
@@ -581,6 +621,11 @@ def run(ctx):
         ctx.extra['unsupported_constructs.' + LABEL[name]] = {k[12:]: v for k, v in sorted(st.items()) if k.startswith('unsupported:')}
         ctx.extra['shim_sqlite_errors.' + LABEL[name]] = {k[13:]: v for k, v in sorted(st.items()) if k.startswith('sqlite_error:')}
         ctx.extra['statements_executed.' + LABEL[name]] = st.get('statements_executed', 0)
+    for name in EXEC:
+        st = xdialect.STATS.get('temporal-' + name, {})
+        ctx.extra['temporal.constructs_evaluated.' + LABEL[name]] = {k[5:]: v for k, v in sorted(st.items()) if k.startswith('seen:')}
+        ctx.extra['temporal.unsupported_constructs.' + LABEL[name]] = {k[12:]: v for k, v in sorted(st.items()) if k.startswith('unsupported:')}
+    ctx.extra['temporal.examples_of_skipped_cases'] = [dict(v, key=k) for k, v in sorted(T.examples.items())][:30]
     ctx.extra['prod_used'] = H.prod_used
     ctx.extra['prod_agree'] = H.prod_agree
     ctx.extra['productions_never_agreed'] = sorted(k for k in H.prod_used if not H.prod_agree.get(k))[:60]
@@ -591,13 +636,22 @@ def run(ctx):
         ctx.floor('agree_nontrivial.' + name, 1500)
         ctx.floor('outcome.%s.agree' % name, 4000)
         ctx.floor('limit_agree_nonempty.' + name, 120)
+    ctx.floor('temporal_agree_nontrivial.sqlite', 300)
+    ctx.floor('temporal_agree_nontrivial.postgres', 300)
+    ctx.floor('temporal_agree_nontrivial.mysql', 150)
     for name in RECORD:
+        ctx.floor('outcome.%s.temporal.generated' % name, 400)
         ctx.floor('outcome.%s.generated' % name, 2000)
         ctx.floor('recorded.%s.placeholders' % name, 600)
 
 
 def replay(ctx, witness):
     from vlib import qdiff
+    if witness.get('temporal'):
+        from vlib import xtemporal
+        T = xtemporal.TemporalHarness(ctx, LOUD_CLASSES)
+        T.replay(witness)
+        print('replay (temporal program): %s' % {k: v for k, v in ctx.counters.items() if k.startswith('outcome.')}); return
     H = Harness(ctx)
     H.load(witness['data'], 'replay')
     p = qdiff.Program.from_json(witness['program'])
